@@ -1,33 +1,86 @@
+// vcheck is the check driver: `vcheck run <Cxx> <quick|thorough>`,
+// `vcheck replay <file>`, and (internally) `vcheck -worker`.
 package main
 
 import (
+	"encoding/json"
 	"fmt"
+	"os"
+	"path/filepath"
+	"time"
 
-	"github.com/mit-pdos/go-journal/vrt"
-	"github.com/mit-pdos/go-nfsd/kvs"
-	"verif/vdisk"
+	"verif/checks"
+	"verif/par"
+	"verif/report"
 )
 
 func main() {
-	img := vdisk.NewImage(1000)
-	var out []string
-	res := vrt.Run(vrt.Config{}, func() {
-		d := vdisk.New(img)
-		k := kvs.MkKVS(d, 1000)
-		val := make([]byte, 4096)
-		val[0] = 7
-		vrt.SetBranching(true)
-		a := vrt.Go("c1", false, func() {
-			ok := k.MultiPut([]kvs.KVPair{{Key: 600, Val: val}})
-			out = append(out, fmt.Sprint("put", ok))
-		})
-		b := vrt.Go("c2", false, func() {
-			p, ok := k.Get(600)
-			out = append(out, fmt.Sprint("get", p.Val[0], ok))
-		})
-		vrt.Join(a, b)
-		vrt.SetBranching(false)
-		k.Delete()
-	})
-	fmt.Println(res.Verdict, res.Msg, len(res.Points), res.Steps, out)
+	if len(os.Args) < 2 {
+		fmt.Fprintln(os.Stderr, "usage: vcheck run <Cxx> <quick|thorough> | replay <file> | -worker")
+		os.Exit(2)
+	}
+	exe, _ := os.Executable()
+	checks.Root = filepath.Dir(filepath.Dir(filepath.Dir(exe)))
+	if r := os.Getenv("VERIF_ROOT"); r != "" {
+		checks.Root = r
+	}
+	switch os.Args[1] {
+	case "-worker":
+		par.WorkerMain()
+	case "run":
+		id, tier := os.Args[2], "quick"
+		if len(os.Args) > 3 {
+			tier = os.Args[3]
+		}
+		fn := checks.Checks[id]
+		if fn == nil {
+			fmt.Fprintf(os.Stderr, "no check for %s\n", id)
+			os.Exit(2)
+		}
+		budget := 8 * time.Minute
+		if tier == "thorough" {
+			budget = 40 * time.Minute
+		}
+		if s := os.Getenv("VERIF_BUDGET_S"); s != "" {
+			var n int
+			fmt.Sscan(s, &n)
+			budget = time.Duration(n) * time.Second
+		}
+		checks.Deadline = time.Now().Add(budget)
+		r := report.New(id, tier, checks.Root)
+		fn(r, tier)
+		os.Exit(r.Finish())
+	case "job":
+		out, err := par.RunLocal(os.Args[2], json.RawMessage(os.Args[3]))
+		ob, _ := json.Marshal(out)
+		fmt.Printf("%s\nerr=%v\n", ob, err)
+	case "replay":
+		b, err := os.ReadFile(os.Args[2])
+		if err != nil {
+			fmt.Fprintln(os.Stderr, err)
+			os.Exit(2)
+		}
+		var v struct {
+			Property string `json:"property"`
+			Sig      string `json:"signature"`
+			Replay   struct {
+				Job string          `json:"job"`
+				Arg json.RawMessage `json:"arg"`
+			} `json:"replay"`
+		}
+		if err := json.Unmarshal(b, &v); err != nil {
+			fmt.Fprintln(os.Stderr, err)
+			os.Exit(2)
+		}
+		out, err := par.RunLocal(v.Replay.Job, v.Replay.Arg)
+		if err != nil {
+			fmt.Fprintln(os.Stderr, err)
+			os.Exit(2)
+		}
+		ob, _ := json.MarshalIndent(out, "", " ")
+		fmt.Printf("replay of %s [%s]\n%s\n", v.Property, v.Sig, ob)
+	default:
+		fmt.Fprintln(os.Stderr, "unknown command")
+		os.Exit(2)
+	}
 }
